@@ -26,6 +26,7 @@ LitStart == 4     \* position of the first byte of the literal body in Text (dq 
 (* class representatives *)
 AlphaSet ==
   CASE Alpha = "dq"  -> {cBS, cDQ, cNL, cDOLLAR, cLB, cRB, cCOLON, cMINUS, 49, 51, 55, 56, 120, 110, 97, 86, 85, 113}
+    [] Alpha = "dqlines" -> {cBS, cDQ, cNL, cSP, 113, cHASH}
     [] Alpha = "dqesc" -> {cBS, cDQ, 49, 51, 55, 56, 120, 97, 102, 113}
     [] Alpha = "sq"  -> {cBS, cSQ, cDQ, cNL, cDOLLAR, cLB, cRB, 86, 113, 49}
     [] Alpha = "comment" -> {cSTAR, cSLASH, cNL, cSP, cHASH, 113, cDQ}
@@ -111,7 +112,9 @@ Parsed ==
 P_C02_ReturnsVerdict == Parsed.status \in {"ok", "fail", "unspec"}
 
 Emit == PrintT(<<"BEH", ToJson([text |-> Text, status |-> Parsed.status, obs |-> ObsSec(RootOf(Parsed)),
-                                lexerr |-> R.err, ntoks |-> Len(R.toks)])>>)
+                                lexerr |-> R.err, ntoks |-> Len(R.toks), line |-> R.line,
+                                diagline |-> IF Parsed.diags # <<>> THEN Parsed.diags[1].line
+                                             ELSE IF R.err THEN R.line ELSE 0])>>)
 
 ASSUME PrintT(<<"SCHEMA", 1, ToJson(ByteSchema)>>)
 =============================================================================
